@@ -13,7 +13,14 @@ import (
 
 var Curve = math.Curves[1]
 
+// Parties, when it holds exactly n identifiers, replaces 1..n as the party identifiers of the
+// helpers of this package (set and reset by a case that enumerates identifier sets).
+var Parties []uint16
+
 func IDs(n int) []uint16 {
+	if len(Parties) == n && n > 0 {
+		return append([]uint16(nil), Parties...)
+	}
 	out := make([]uint16, n)
 	for i := range out {
 		out[i] = uint16(i + 1)
